@@ -14,9 +14,14 @@
                          character-data tokens come in source order
     C17_boundaries       every end point is a char boundary of the source, when the token spans are
                          slices of the source
-  Not proved here (see bin/props/C17.json): that the token spans slice to the spelling the property
-  names (tokenizer), decoding the slice gives the value at tree level (character-level part:
-  C02_content).
+  For the reference tokenizer (Model/Lex*.lean: xmlparser 0.13.6 as written; tied to the crate by the
+  `lex` suite), on EVERY string:
+    C17_lex_slices / _sliceOf   every token span is the slice of the text at its byte offsets
+    C17_lex_errpos, C17_lex_shape, C17_lex_ordered   error position, token-shape contract, source order
+    C17_string_inside / _boundaries / _ordered       the theorems above with no assumption left
+    C17_lex_canonical_positions   canonical spelling ⇒ exactly the positions it implies
+  Not proved here (see bin/props/C17.json): decoding the slice gives the value at tree level
+  (character-level part: C02_content).
 -/
 import XotModel.Lemmas.ParseSpans
 import XotModel.Lemmas.ParseSpanKeys
@@ -26,6 +31,7 @@ import XotModel.Lemmas.ParseSpanEnds
 import XotModel.Lemmas.ParseWitnessData
 import XotModel.Lemmas.TokenShapeB
 import XotModel.Lemmas.LexSlice
+import XotModel.Lemmas.LexSliceOrder
 import XotModel.Lemmas.LexCanon
 import XotModel.Model.ParseString
 
@@ -218,6 +224,20 @@ theorem C17_string_inside (m : Mode) (env : Env) (s : Str) :
     (∀ p, parseString m env s = .ok p → ∀ e ∈ p.spans, e.2.InBounds (strLen s)) ∧
     (∀ e env', parseString m env s = .err e env' → e.span.InBounds (strLen s)) :=
   ⟨fun _ h => C17_inside (C17_lex_shape m s) h, fun _ _ h => C17_errors (C17_lex_shape m s) h⟩
+
+/-- The character-data tokens of the reference tokenizer come in source order (the assumption
+    `TextOrdered` of `C17_ordered`), on every string. -/
+theorem C17_lex_ordered (m : Mode) (s : Str) : TextOrdered (lexMode m s).1 := by
+  cases m
+  · exact lexDocument_textOrdered s
+  · exact lexFragment_textOrdered s
+
+/-- String level: `start ≤ end` for every recorded span and every error span of
+    `parse` / `parse_fragment`, on every string. -/
+theorem C17_string_ordered (m : Mode) (env : Env) (s : Str) :
+    (∀ p, parseString m env s = .ok p → ∀ e ∈ p.spans, e.2.start ≤ e.2.stop) ∧
+    (∀ e env', parseString m env s = .err e env' → e.span.start ≤ e.span.stop) :=
+  C17_ordered (C17_lex_shape m s) (C17_lex_ordered m s)
 
 /-- Canonical spelling: the tokenizer reads `renderTokens ts` back as `ts` with every span at the
     byte offset the spelling implies (`placeTokens`), for token lists of every length and depth
